@@ -701,3 +701,21 @@ Proof.
   - eexists. eexists. split; [reflexivity|]. now apply low_upper_is_cap.
   - rewrite orb_false_r in Hc. eexists. eexists. split; [reflexivity|exact Hc].
 Qed.
+
+(* ---- ToLowerCamel on UpperCamel words lowers the first letter, hence is injective there ---- *)
+Theorem to_lower_camel_upper_word : forall c r,
+  upper_word (c :: r) = true -> to_lower_camel (c :: r) = (c + 32) :: r.
+Proof.
+  intros c r Hn. unfold to_lower_camel, to_camel_init.
+  rewrite (trim_space_ident _ (upper_word_ident _ Hn)).
+  cbn [upper_word] in Hn. apply andb_true_iff in Hn. destruct Hn as [Hc Hr].
+  cbn [camel_go]. rewrite Hc. cbn [orb]. f_equal. now apply camel_go_tail.
+Qed.
+
+Theorem to_lower_camel_injective_upper_word : forall a b,
+  upper_word a = true -> upper_word b = true -> to_lower_camel a = to_lower_camel b -> a = b.
+Proof.
+  intros [|c r] [|d s] Ha Hb H; try discriminate.
+  rewrite (to_lower_camel_upper_word c r Ha), (to_lower_camel_upper_word d s Hb) in H.
+  inversion H. f_equal. lia.
+Qed.
